@@ -12,6 +12,7 @@ CONSTANTS
   MaxR = 1
   MaxMsg = 1
   PipeWriteLock = TRUE
+  C2ClosesPipe = TRUE
   EnvAtRest = FALSE
   History = TRUE
 SPECIFICATION Spec
